@@ -1,7 +1,353 @@
-import RbdlProofs.Lemmas.Rot
-/- C14 — property theorems (being filled in) -/
+import RbdlProofs.Lemmas.Model14
+/-
+  C14 — the construction state machine stays well-formed; rejected additions change nothing.
+
+  `ModelS.WF`, `Op`, `Op.valid`, `ModelS.step`, `ModelS.run`, `ModelS.validRun` are defined in
+  Rbdl/ModelWF.lean; helper lemmas are in RbdlProofs/Lemmas/Model14.lean.  Every theorem with
+  hypotheses is followed by an `example` instantiating it on a concrete model over `Rat`
+  (the data `Ex.*` are defined at the end of RbdlProofs/Lemmas/Model14.lean).
+-/
 namespace Rbdl.C14
-open Lean.Grind Rbdl
-variable {α : Type} [CommRing α]
-theorem placeholder_rot_one : (M3.one : M3 α).IsRot := M3.isRot_one
+open Lean.Grind Rbdl Rbdl.ModelS
+
+section
+variable {α : Type} [Field α] [DecidableEq α]
+
+/-! ### 1–3: the invariant holds initially and is kept by every valid operation -/
+
+omit [DecidableEq α] in
+/-- 1. The freshly initialised model (base body only) is well-formed. -/
+theorem wf_init : (ModelS.init : ModelS α).WF := by
+  constructor
+  case names_ok => intro p hp; simp [ModelS.init] at hp; subst hp; left; simp [nBodies, ModelS.init]
+  case lam_lt => intro i h1 h2; simp [nBodies, ModelS.init] at h2; omega
+  case q_contig => intro i h; simp [nBodies, ModelS.init] at h
+  case w3_sph =>
+    intro i h hs
+    simp [nBodies, ModelS.init] at h; subst h
+    simp [joint, ModelS.init, Joint.root] at hs
+  case fixed_parent => intro k hk; simp [ModelS.init] at hk
+  case custom_ok =>
+    intro i h hc
+    simp [nBodies, ModelS.init] at h; subst h
+    simp [joint, ModelS.init, Joint.root] at hc
+  case prev_ok => left; simp [nBodies, ModelS.init]
+  case names_nodup => simp [ModelS.init]
+  case qsize => simp [ModelS.init, sphBefore, nBodies, Joint.root]
+  case mu_children =>
+    intro p c
+    have hnb : (ModelS.init : ModelS α).nBodies = 1 := rfl
+    rw [hnb]
+    have hmu : (ModelS.init : ModelS α).mu.getD p [] = [] := by
+      cases p <;> simp [ModelS.init]
+    rw [hmu]
+    constructor
+    · intro h; cases h
+    · rintro ⟨h1, h2, -⟩; omega
+  all_goals first | rfl | simp [nBodies, ModelS.init, fixedDisc]
+
+/-- 2. Every valid operation keeps the invariant, whether the call succeeds or is rejected. -/
+theorem wf_step (m : ModelS α) (op : Op α) (hwf : m.WF) (hv : op.valid m) :
+    (m.step op).1.WF :=
+  step_wf m hwf op hv
+
+/-- 3. Any sequence of operations that are valid along the way keeps the invariant … -/
+theorem wf_run_from (ops : List (Op α)) : ∀ (m : ModelS α), m.WF → m.validRun ops →
+    (m.run ops).WF := by
+  induction ops with
+  | nil => intro m hwf _; exact hwf
+  | cons op ops ih =>
+    intro m hwf hv
+    exact ih _ (wf_step m op hwf hv.1) hv.2
+
+example : Ex.M.WF := wf_run_from Ex.ops _ wf_init Ex.validRun_ops
+
+/-- 3'. … in particular every model reachable from the initial one is well-formed. -/
+theorem wf_run (ops : List (Op α)) (hv : (ModelS.init : ModelS α).validRun ops) :
+    ((ModelS.init : ModelS α).run ops).WF :=
+  wf_run_from ops _ wf_init hv
+
+example : Ex.M.WF := wf_run Ex.ops Ex.validRun_ops
+example : Ex.M.nBodies = 8 ∧ Ex.M.fixedBodies.length = 1 ∧ Ex.M.dofCount = 14 ∧
+    Ex.M.qSize = 16 ∧ Ex.M.lambda = [0, 0, 1, 2, 3, 3, 5, 2] := by decide +kernel
+
+example : (Ex.M.step Ex.opChain).1.WF :=
+  wf_step _ _ (wf_run_from _ _ wf_init Ex.validRun_ops) (by decide +kernel)
+example : (Ex.M.step Ex.opDup).1.WF :=    -- a rejected call
+  wf_step _ _ (wf_run_from _ _ wf_init Ex.validRun_ops) (by decide +kernel)
+
+/-- The validity precondition cannot be dropped: a parent id that is not an id of the model
+    breaks "parents precede children" … -/
+example : ¬ ((ModelS.init : ModelS Rat).step (.addBody 99 Ex.frame Ex.jz Ex.body "b")).1.WF :=
+  fun h => absurd (h.lam_lt 1 (by decide) (by decide +kernel)) (by decide +kernel)
+/-- … and a hand-made `custom` joint without a registered custom joint breaks clause (g). -/
+example : ¬ ((ModelS.init : ModelS Rat).step
+    (.addBody 0 Ex.frame ⟨.custom, [], 1, 0, noCustom⟩ Ex.body "b")).1.WF :=
+  fun h => absurd (h.custom_ok 1 (by decide +kernel) (by decide +kernel)).1 (by decide +kernel)
+
+/-! ### 4, 6: rejected calls -/
+
+/-- 4. A call rejected with a library error (any operation, any error, valid or not) leaves
+    the model exactly as it was. -/
+theorem reject_unchanged (m : ModelS α) (op : Op α) (e : Err)
+    (h : (m.step op).2 = .error e) : (m.step op).1 = m := by
+  have ho := step_outcome m op
+  generalize m.step op = r at h ho
+  cases ho with
+  | dup => rfl
+  | rejected => rfl
+  | movable => cases h
+  | fixed => cases h
+
+example : (Ex.M.step Ex.opDup).1 = Ex.M :=
+  reject_unchanged _ _ .duplicateName (by decide +kernel)
+example : (Ex.M.step Ex.opBad).1 = Ex.M :=
+  reject_unchanged _ _ .invalidJoint (by decide +kernel)
+example : (Ex.M.step Ex.opZero).1 = Ex.M :=
+  reject_unchanged _ _ .zeroMass (by decide +kernel)
+
+/-- 6. A non-empty name that is already used is always rejected with `duplicateName`
+    (and by 4. nothing changes). -/
+theorem duplicate_rejected (m : ModelS α) (op : Op α) (hne : op.name ≠ "")
+    (hdup : m.hasName op.name = true) : m.step op = (m, .error .duplicateName) := by
+  have hd : op.name ≠ "" ∧ m.hasName op.name = true := ⟨hne, hdup⟩
+  cases op with
+  | addBody parent frame j b name => simp only [ModelS.step]; rw [addBody_eq]; exact if_pos hd
+  | appendBody frame j b name =>
+    simp only [ModelS.step, appendBody]; rw [addBody_eq]; exact if_pos hd
+  | addBodyCustomJoint parent frame k b name =>
+    simp only [ModelS.step]; rw [addBodyCustomJoint_eq]; exact if_pos hd
+
+example : Ex.M.step Ex.opDup = (Ex.M, .error .duplicateName) :=
+  duplicate_rejected _ _ (by decide) (by decide +kernel)
+
+/-- 6'. Conversely `duplicateName` is reported only for a non-empty name already in use. -/
+theorem duplicate_only_if (m : ModelS α) (op : Op α)
+    (h : (m.step op).2 = .error .duplicateName) : op.name ≠ "" ∧ m.hasName op.name = true := by
+  have ho := step_outcome m op
+  generalize m.step op = r at h ho
+  cases ho with
+  | dup h1 h2 => exact ⟨h1, h2⟩
+  | rejected e _ hne => simp at h; exact absurd h hne
+  | movable => cases h
+  | fixed => cases h
+
+example : Ex.opDup.name ≠ "" ∧ Ex.M.hasName Ex.opDup.name = true :=
+  duplicate_only_if _ _ (by decide +kernel)
+
+/-! ### 5: the returned id -/
+
+/-- 5. On success the returned id is
+    * for a fixed joint: the new fixed-body id `fixedDisc + (old number of fixed bodies)`; one
+      fixed body was added and no movable body;
+    * otherwise: the new last movable body `old nBodies + k - 1` where `k ≥ 1` is the number of
+      bodies of the chain (`Op.newBodies`); `k` movable bodies were added and no fixed body;
+    it becomes the id `AppendBody` attaches to, and a non-empty name resolves to it. -/
+theorem returned_id (m : ModelS α) (op : Op α) (id : Nat) (h : (m.step op).2 = .ok id) :
+    (if op.isFixed then
+        id = fixedDisc + m.fixedBodies.length ∧
+        (m.step op).1.fixedBodies.length = m.fixedBodies.length + 1 ∧
+        (m.step op).1.nBodies = m.nBodies
+      else
+        1 ≤ op.newBodies ∧ id = m.nBodies + op.newBodies - 1 ∧
+        id = (m.step op).1.nBodies - 1 ∧
+        (m.step op).1.nBodies = m.nBodies + op.newBodies ∧
+        (m.step op).1.fixedBodies.length = m.fixedBodies.length) ∧
+    (m.step op).1.prevBodyId = id ∧
+    (op.name ≠ "" → (m.step op).1.getBodyId op.name = id ∧ (m.step op).1.hasName op.name = true) := by
+  have ho := step_outcome m op
+  generalize m.step op = r at h ho
+  cases ho with
+  | dup => cases h
+  | rejected => cases h
+  | movable m' hd hfx hk ha =>
+    simp only [Except.ok.injEq] at h; subst h
+    refine ⟨?_, ha.prev, fun hne => getBodyId_of_names m m' _ _ hne hd ha.names⟩
+    rw [hfx]
+    have hnb := ha.nb
+    simp only [nBodies, ha.fixed, Bool.false_eq_true, if_false, and_true, true_and]
+    omega
+  | fixed m' hd hfx ha =>
+    simp only [Except.ok.injEq] at h; subst h
+    refine ⟨?_, ha.prev, fun hne => getBodyId_of_names m m' _ _ hne hd ha.names⟩
+    obtain ⟨fb, hfb⟩ := ha.fixed
+    rw [hfx]
+    have hnb := ha.nb
+    simp only [nBodies, hfb, if_true, List.length_append, List.length_cons,
+      List.length_nil, true_and]
+    omega
+
+/-- a chain of 2 bodies on the 8-body model returns id 9 = 8 + 2 - 1, and "toe" resolves to it -/
+example : (Ex.M.step Ex.opChain).1.nBodies = 10 ∧ (Ex.M.step Ex.opChain).1.prevBodyId = 9 ∧
+    (Ex.M.step Ex.opChain).1.getBodyId "toe" = 9 := by
+  have h := returned_id Ex.M Ex.opChain 9 (by decide +kernel)
+  have e1 : Ex.opChain.isFixed = false := by decide
+  have e2 : Ex.opChain.newBodies = 2 := by decide
+  have e3 : Ex.M.nBodies = 8 := by decide +kernel
+  rw [e1, e2, e3] at h
+  exact ⟨h.1.2.2.2.1, h.2.1, (h.2.2 (by decide)).1⟩
+/-- a fixed body on the model with one fixed body returns `fixedDisc + 1` -/
+example : (Ex.M.step Ex.opFix).1.fixedBodies.length = 2 ∧
+    (Ex.M.step Ex.opFix).1.getBodyId "imu" = fixedDisc + 1 := by
+  have h := returned_id Ex.M Ex.opFix (fixedDisc + 1) (by decide +kernel)
+  have e1 : Ex.opFix.isFixed = true := by decide
+  have e3 : Ex.M.fixedBodies.length = 1 := by decide +kernel
+  rw [e1, e3] at h
+  exact ⟨h.1.2.1, (h.2.2 (by decide)).1⟩
+
+/-- 5'. In a well-formed model the id returned by a valid operation is an id the model
+    resolves (`isBodyId`); a fixed id is recognised by `isFixedBodyId` and resolves to a movable
+    parent; a movable id is not mistaken for a fixed one as long as `nBodies ≤ fixedDisc`. -/
+theorem returned_id_resolves (m : ModelS α) (op : Op α) (id : Nat) (hwf : m.WF)
+    (hv : op.valid m) (h : (m.step op).2 = .ok id) :
+    (m.step op).1.isBodyId id = true ∧
+    (op.isFixed = true → (m.step op).1.isFixedBodyId id = true ∧
+      ((m.step op).1.fixedBody (id - fixedDisc)).movableParent < (m.step op).1.nBodies ∧
+      (m.step op).1.getParentBodyId id < (m.step op).1.nBodies) ∧
+    (op.isFixed = false → (m.step op).1.nBodies ≤ fixedDisc →
+      (m.step op).1.isFixedBodyId id = false) := by
+  have hwf' := wf_step m op hwf hv
+  obtain ⟨h1, h2, -⟩ := returned_id m op id h
+  have hcap := hwf'.fixed_cap
+  have hnb := hwf.nb_pos
+  have hfd := fixedDisc_eq
+  by_cases hfx : op.isFixed = true
+  · rw [if_pos hfx] at h1
+    have hfid : (m.step op).1.isFixedBodyId id = true := by
+      rw [isFixedBodyId_iff]; omega
+    have hpar := hwf'.fixed_parent (id - fixedDisc) (by omega)
+    refine ⟨?_, ?_, ?_⟩
+    · rw [isBodyId_iff]; right; exact hfid
+    · intro _
+      refine ⟨hfid, hpar, ?_⟩
+      simp only [getParentBodyId]
+      rw [if_pos (by omega)]; exact hpar
+    · intro h; rw [h] at hfx; cases hfx
+  · rw [if_neg hfx] at h1
+    simp only [nBodies] at h1 hnb
+    refine ⟨?_, ?_, ?_⟩
+    · rw [isBodyId_iff]; left; omega
+    · intro h; exact absurd h hfx
+    · intro _ hle
+      simp only [nBodies] at hle
+      cases hh : (m.step op).1.isFixedBodyId id with
+      | false => rfl
+      | true => rw [isFixedBodyId_iff] at hh; omega
+
+example : (Ex.M.step Ex.opFix).1.isFixedBodyId (fixedDisc + 1) = true ∧
+    (Ex.M.step Ex.opFix).1.getParentBodyId (fixedDisc + 1) < (Ex.M.step Ex.opFix).1.nBodies :=
+  have h := returned_id_resolves Ex.M Ex.opFix (fixedDisc + 1)
+    (wf_run Ex.ops Ex.validRun_ops) (by decide +kernel) (by decide +kernel)
+  ⟨(h.2.1 (by decide)).1, (h.2.1 (by decide)).2.2⟩
+example : (Ex.M.step Ex.opChain).1.isBodyId 9 = true :=
+  (returned_id_resolves Ex.M Ex.opChain 9 (wf_run Ex.ops Ex.validRun_ops) (by decide +kernel)
+    (by decide +kernel)).1
+
+/-! ### 7: existing bodies are untouched by a successful addition -/
+
+/-- 7. Prefix property: a successful addition only appends to `lambda`, `lambdaQ`, `joints`,
+    the joint frames, the name table, the fixed bodies and the custom joints. -/
+theorem prev_ids_stable (m : ModelS α) (op : Op α) (id : Nat) (h : (m.step op).2 = .ok id) :
+    m.lambda <+: (m.step op).1.lambda ∧ m.lambdaQ <+: (m.step op).1.lambdaQ ∧
+    m.joints <+: (m.step op).1.joints ∧ m.xT <+: (m.step op).1.xT ∧
+    m.names <+: (m.step op).1.names ∧ m.fixedBodies <+: (m.step op).1.fixedBodies ∧
+    m.customJoints <+: (m.step op).1.customJoints := by
+  have ho := step_outcome m op
+  generalize m.step op = r at h ho
+  cases ho with
+  | dup => cases h
+  | rejected => cases h
+  | movable m' hd hfx hk ha =>
+    refine ⟨ha.lambda, ha.lambdaQ, ha.joints, ha.xT, ?_, ?_, ha.custom⟩
+    · rw [ha.names]; split
+      · exact List.prefix_append _ _
+      · exact List.prefix_refl _
+    · rw [ha.fixed]; exact List.prefix_refl _
+  | fixed m' hd hfx ha =>
+    obtain ⟨fb, hfb⟩ := ha.fixed
+    refine ⟨?_, ?_, ?_, ?_, ?_, ?_, ?_⟩
+    · rw [ha.lambda]; exact List.prefix_refl _
+    · rw [ha.lambdaQ]; exact List.prefix_refl _
+    · rw [ha.joints]; exact List.prefix_refl _
+    · rw [ha.xT]; exact List.prefix_refl _
+    · rw [ha.names]; split
+      · exact List.prefix_append _ _
+      · exact List.prefix_refl _
+    · rw [hfb]; exact List.prefix_append _ _
+    · rw [ha.custom]; exact List.prefix_refl _
+
+example : Ex.M.joints <+: (Ex.M.step Ex.opChain).1.joints :=
+  (prev_ids_stable Ex.M Ex.opChain 9 (by decide +kernel)).2.2.1
+
+/-- 7'. The same by index: parent, joint, joint frame of every existing body, every existing
+    fixed body and every existing name are unchanged. -/
+theorem prev_ids_stable_index (m : ModelS α) (op : Op α) (id : Nat) (hwf : m.WF)
+    (h : (m.step op).2 = .ok id) :
+    (∀ i, i < m.nBodies → (m.step op).1.lam i = m.lam i ∧ (m.step op).1.joint i = m.joint i ∧
+      (m.step op).1.XT_ i = m.XT_ i) ∧
+    (∀ k, k < m.fixedBodies.length → (m.step op).1.fixedBody k = m.fixedBody k) ∧
+    (∀ p ∈ m.names, (m.step op).1.getBodyId p.1 = p.2 ∧ m.getBodyId p.1 = p.2) := by
+  obtain ⟨h1, -, h3, h4, h5, h6, -⟩ := prev_ids_stable m op id h
+  have hwf_names := hwf.names_nodup
+  refine ⟨fun i hi => ⟨?_, ?_, ?_⟩, fun k hk => ?_, fun p hp => ⟨?_, ?_⟩⟩
+  · exact prefix_getD h1 i (by rw [hwf.len_lambda]; exact hi) _
+  · exact prefix_getD h3 i (by rw [hwf.len_joints]; exact hi) _
+  · exact prefix_getD h4 i (by rw [hwf.len_xT]; exact hi) _
+  · exact prefix_getD h6 k hk _
+  · obtain ⟨t, ht⟩ := h5
+    simp only [getBodyId, ← ht, List.find?_append, find?_of_pairwise _ hwf_names p hp]
+    simp
+  · simp only [getBodyId, find?_of_pairwise _ hwf_names p hp]
+
+example : (Ex.M.step Ex.opFix).1.lam 4 = Ex.M.lam 4 ∧
+    (Ex.M.step Ex.opFix).1.getBodyId "foot" = 6 :=
+  have h := prev_ids_stable_index Ex.M Ex.opFix (fixedDisc + 1) (wf_run Ex.ops Ex.validRun_ops)
+    (by decide +kernel)
+  ⟨(h.1 4 (by decide +kernel)).1, (h.2.2 ("foot", 6) (by decide +kernel)).1⟩
+
+omit [DecidableEq α] in
+/-- Names and ids resolve to each other in a well-formed model: every recorded name resolves to
+    its id, which is the base, a movable body or a recognised fixed body. -/
+theorem names_resolve (m : ModelS α) (hwf : m.WF) (p : String × Nat) (hp : p ∈ m.names) :
+    m.getBodyId p.1 = p.2 ∧ (p.2 = 0 ∨ m.isBodyId p.2 = true) := by
+  refine ⟨?_, ?_⟩
+  · simp only [getBodyId, find?_of_pairwise _ hwf.names_nodup p hp]
+  · have hcap := hwf.fixed_cap
+    rcases hwf.names_ok p hp with h | h
+    · simp only [nBodies] at h
+      by_cases h0 : p.2 = 0
+      · left; exact h0
+      · right; rw [isBodyId_iff]; left; omega
+    · right
+      have hfd := fixedDisc_eq
+      rw [isBodyId_iff, isFixedBodyId_iff]; right; omega
+
+example : Ex.M.getBodyId "sensor" = fixedDisc ∧
+    (fixedDisc = 0 ∨ Ex.M.isBodyId fixedDisc = true) :=
+  names_resolve Ex.M (wf_run Ex.ops Ex.validRun_ops) ("sensor", fixedDisc) (by decide +kernel)
+
+/-! ### consequences of the invariant for the coordinate layout -/
+
+omit [DecidableEq α] in
+/-- In a well-formed model every joint's coordinates `[qIndex, qIndex + dof)` lie inside
+    `[0, dofCount)`, and the extra `w` entries of the spherical joints lie in
+    `[dofCount, qSize)`, after all others, strictly increasing in index order. -/
+theorem coord_ranges (m : ModelS α) (hwf : m.WF) (i : Nat) (hi : i < m.nBodies) :
+    (m.joint i).qIndex + (m.joint i).dof ≤ m.dofCount ∧
+    ((m.joint i).jt = .spherical →
+      m.dofCount ≤ m.w3 i ∧ m.w3 i < m.qSize ∧
+      ∀ k, i < k → k < m.nBodies → (m.joint k).jt = .spherical → m.w3 i < m.w3 k) :=
+  ⟨q_range_aux m hwf (m.nBodies - 1 - i) i (by omega),
+   fun hs => ⟨(w3_range_aux m hwf i hi hs).1, (w3_range_aux m hwf i hi hs).2,
+     fun k hik hk hsk => w3_strict_aux m hwf i k hik hk hs hsk⟩⟩
+
+example : (Ex.M.joint 4).qIndex + (Ex.M.joint 4).dof ≤ Ex.M.dofCount ∧
+    Ex.M.dofCount ≤ Ex.M.w3 2 ∧ Ex.M.w3 2 < Ex.M.w3 4 ∧ Ex.M.w3 4 < Ex.M.qSize :=
+  have hwf := wf_run Ex.ops Ex.validRun_ops
+  have h2 := (coord_ranges Ex.M hwf 2 (by decide +kernel)).2 (by decide +kernel)
+  have h4 := (coord_ranges Ex.M hwf 4 (by decide +kernel)).2 (by decide +kernel)
+  ⟨(coord_ranges Ex.M hwf 4 (by decide +kernel)).1, h2.1,
+   h2.2.2 4 (by decide) (by decide +kernel) (by decide +kernel), h4.2.1⟩
+
+end
 end Rbdl.C14
